@@ -251,6 +251,13 @@ func oracle(c config, res *result, slack time.Duration) string {
 		return "never returns: no result within 4*(Timeout+Max)+1min (hangs instead of giving up)"
 	}
 	var reasons []string
+	if len(res.calls) == 0 {
+		what := "a failure"
+		if c.entry(0).ok {
+			what = "a success"
+		}
+		reasons = append(reasons, fmt.Sprintf("no attempt at all: the wrapped getter was never called (its first response would have been %s), whatever Timeout is (%v) the first successful response must be returned", what, c.to))
+	}
 	first := -1
 	for i, cl := range res.calls {
 		if cl.ok {
